@@ -1242,8 +1242,16 @@ func runOnce(p *Plan) (out evid.Outcome, err error) {
 				if e.stop.Load() {
 					return nil
 				}
-				if err := t.doRead(op, fmt.Sprintf("reader %d op %d %s", i, j, op.Kind)); err != nil {
-					return err
+				// Rep > 1: reader churn - the same read is repeated back to back
+				// (many NewIter / NewSnapshot / Close calls racing with version and
+				// memtable changes); every repetition is checked like a single read.
+				for rep := 0; rep < max(1, op.Rep); rep++ {
+					if rep > 0 && e.stop.Load() {
+						break
+					}
+					if err := t.doRead(op, fmt.Sprintf("reader %d op %d %s", i, j, op.Kind)); err != nil {
+						return err
+					}
 				}
 			}
 			return nil
